@@ -143,8 +143,8 @@ class Driver:
         from mirsym.models import render_display
         if r.h is None:
             self._do(['show', r.reg], lambda: None, lambda _: 'skip'); return None
-        go = lambda: ''.join(render_display(self.m, Ptr(Cell(r.h))))
-        return self._do(['show', r.reg], go, lambda s: s)
+        go = lambda: render_display(self.m, Ptr(Cell(r.h)))       # list of characters (symbolic ones stay Sym)
+        return self._do(['show', r.reg], go, lambda cs: ''.join(cs))
 
     def dump(self, r):
         if r.h is None:
@@ -428,6 +428,16 @@ class Driver:
             r.h = term.h.fields[0].v.items[i].v; return r.h
         self._do(['arg', r.reg, term.reg, i], go, lambda h: H.dump(self.hp.read(h)))
         return r
+
+
+    def dumpkb(self, kb):
+        """every rule of a knowledge base, keys sorted, no renaming"""
+        def go():
+            out = []
+            for k, cell in sorted(kb.h.e, key=lambda e: e[0].concrete()):
+                out.append((k.concrete(), [self.hp.read_rule(c.v) for c in cell.v.items]))
+            return out
+        return self._do(['dumpkb', kb.reg], go, lambda v: ';'.join('%s=[%s]' % (k, ','.join(H.dump_rule(r) for r in rs)) for k, rs in v))
 
     # ------------------------------------------------------------ export
     def scenario_json(self):
